@@ -725,8 +725,6 @@ func (f *FS) GoOpenFile(path string, flag int) (*File, error) {
 		n.Data = nil
 		n.Mtime = f.s.Cfg.Epoch + f.s.now
 		f.journal("truncate", abs, "", n.Ino)
-	} else if flag&O_APPEND == 0 && len(n.Data) > 0 {
-		f.s.HarnessFail("overwrite-in-place open is not modelled: " + path)
 	}
 	return &File{fs: f, n: n, name: path, abs: abs, write: true, app: flag&O_APPEND != 0}, nil
 }
